@@ -79,6 +79,23 @@ class SciText:
         return 'SciText(%r)' % (self.d,)
 
 
+class FmtText:
+    """format(v, spec) of a real v under a float presentation spec (e.g.
+    ' .3E', '.3E', ' .3f'): the text is a function of (spec, v) only.  Two
+    such pieces with the same spec are equal if their values are equal (used
+    as a sufficient condition when proving a goal, never to decide a branch).
+    `length` is exact for E-formats (symbolic in the sign / exponent width),
+    an unknown integer for f-formats.  Alphabet: ' +-0123456789.Ee'."""
+
+    def __init__(self, v, spec, length):
+        self.v = v
+        self.spec = spec
+        self.length = length
+
+    def __repr__(self):
+        return 'FmtText(%r,%r)' % (self.spec, self.v)
+
+
 class SStr:
     def __init__(self, pieces):
         out = []
@@ -205,6 +222,33 @@ def equals(a, b, ops):
                 n1, n2 = sorted([x.name, y.name])
                 return Sym(z3.Bool('streq!%s!%s' % (n1, n2)))
             raise Unsupported('comparison of distinct unknown tokens')
+        if isinstance(x, FmtText) or isinstance(y, FmtText):
+            if x is y:
+                pa.pop(0)
+                pb.pop(0)
+                continue
+            if isinstance(x, FmtText) and isinstance(y, FmtText) and \
+                    x.spec == y.spec:
+                ctx = getattr(getattr(ops, 'interp', None), 'ctx', None)
+                if ctx is not None and getattr(ctx, 'goal_mode', False):
+                    conds.append(ops.equals(x.v, y.v))
+                    pa.pop(0)
+                    pb.pop(0)
+                    continue
+                e = ops.equals(x.v, y.v)
+                if e is True or (isinstance(e, Sym) and ctx is not None
+                                 and ctx.prove(e.t)):
+                    pa.pop(0)
+                    pb.pop(0)
+                    continue
+            f, oth = (x, y) if isinstance(x, FmtText) else (y, x)
+            if isinstance(oth, str) and oth and \
+                    oth[0] not in ' +-0123456789.Ee':
+                return False
+            if isinstance(oth, Tok) and oth.first_nondigit and \
+                    set(' +-') <= oth.excl:
+                return False
+            raise Unsupported('comparison of formatted numbers')
         # Tok vs literal / IntText
         if isinstance(x, (NumText, SciText)) or \
                 isinstance(y, (NumText, SciText)):
@@ -233,7 +277,7 @@ def equals(a, b, ops):
                 return False
             if isinstance(p, IntText) and p.width > 0:
                 return False
-            if isinstance(p, (Tok, NumText, SciText)):
+            if isinstance(p, (Tok, NumText, SciText, FmtText)):
                 return False
     return ops.all_(conds)
 
@@ -262,6 +306,9 @@ def _needle_ok(s, needle):
                                           for ch in needle):
             return False
         if isinstance(p, SciText) and any(ch.isdigit() or ch in '.E+-'
+                                          for ch in needle):
+            return False
+        if isinstance(p, FmtText) and any(ch in ' +-0123456789.Ee'
                                           for ch in needle):
             return False
         if isinstance(p, Tok) and not (set(needle) & p.excl):
@@ -336,6 +383,9 @@ def _alphabet(p):
         a = ALL_CHARS - p.excl
         l = p.length if isinstance(p.length, int) else None
         return a, (l or 1), (l or 10 ** 6)
+    if isinstance(p, FmtText):
+        l = p.length if isinstance(p.length, int) else None
+        return frozenset(' +-0123456789.Ee'), (l or 1), (l or 400)
     raise Unsupported('piece %r' % (p,))
 
 
@@ -616,6 +666,8 @@ def _safe_edge(p, cs):
         return set(cs) <= p.excl
     if isinstance(p, NumText):
         return not any(ch.isdigit() or ch == '.' for ch in cs)
+    if isinstance(p, FmtText):
+        return not any(ch in ' +-0123456789.Ee' for ch in cs)
     return True
 
 
@@ -712,6 +764,18 @@ def float_text(v, spec, interp):
     ctx = interp.ctx
     from .values import z3real
     t = z3real(v)
+    # the text is a function of (spec, value): one piece per pair and path
+    memo = ctx.__dict__.setdefault('numtext_memo', {})
+    mkey = (spec, z3.simplify(t).sexpr(),
+            bool(getattr(interp, 'concrete_number_lengths', False)))
+    if mkey in memo and len(ctx.decisions) >= memo[mkey][1]:
+        return memo[mkey][0]
+    r = _float_text(v, nd, t, ctx, interp)
+    memo[mkey] = (r, len(ctx.decisions))
+    return r
+
+
+def _float_text(v, nd, t, ctx, interp):
     if not ctx.prove(t >= 0):
         if ctx.branch(mk(t < 0)):
             raise Unsupported('formatting a negative symbolic real')
@@ -734,6 +798,46 @@ def float_text(v, spec, interp):
                 return SStr([NumText(Sym(d), nd, k + 1 + nd)])
         raise Unsupported('formatted real with more than 8 integer digits')
     return SStr([NumText(Sym(d), nd, Sym(L))])
+
+
+def fmt_text(v, spec, interp):
+    """format(v, spec) for a symbolic real and a float presentation spec
+    [sign].<prec>(E|e|f): an opaque function of (spec, v) with exact length
+    for the E-formats (reals are finite floats: exponent of 2 or 3 digits)"""
+    import re
+    m = re.fullmatch(r'([ +]?)\.(\d+)([Eef])', spec)
+    if not m:
+        raise Unsupported('float format spec %r' % spec)
+    sign, prec, kind = m.group(1), int(m.group(2)), m.group(3)
+    if isinstance(v, (int, Fraction)) and not isinstance(v, bool):
+        return format(float(v), spec)
+    ctx = interp.ctx
+    from .values import z3real
+    t = z3.simplify(z3real(v))
+    if kind in 'Ee':
+        a = z3.If(t < 0, -t, t)
+        # two exponent digits iff the correctly rounded mantissa/exponent
+        # lies in [1E-99, 9.99..E+99]
+        hi = z3.RealVal(str(Fraction(10) ** 100 -
+                            5 * Fraction(10) ** (98 - prec)))
+        lo = z3.RealVal(str(Fraction(10) ** -99 -
+                            5 * Fraction(10) ** (-101 - prec)))
+        two = z3.Or(t == 0, z3.And(a >= lo, a < hi))
+        base = (1 if sign else 0) + 1 + (1 if prec else 0) + prec + 4
+        L = z3.IntVal(base) + z3.If(two, 0, 1)
+        if not sign:
+            L = L + z3.If(t < 0, 1, 0)
+        L = z3.simplify(L)
+        length = L.as_long() if z3.is_int_value(L) else Sym(L)
+    else:
+        key = ('fmtlen:' + spec, t.sexpr())
+        memo = ctx.atoms.table
+        if key not in memo:
+            c = ctx.fresh('fmtlen', 'int')
+            ctx.atoms.facts.append(c >= prec + 2 + (1 if sign else 0))
+            memo[key] = c
+        length = Sym(memo[key])
+    return SStr([FmtText(Sym(t), spec, length)])
 
 
 def sci_text(v, interp):
@@ -854,6 +958,27 @@ def int_text(n, spec, interp):
     raise Unsupported('symbolic integer with more than 8 digits')
 
 
+def pad_text(val, spec):
+    """format(val, spec) of a string of known length under [[fill]align][width]"""
+    import re
+    m = re.fullmatch(r'(?:(.?)([<>^]))?(\d+)?', spec)
+    if not m:
+        raise Unsupported('string format spec %r' % spec)
+    fill = m.group(1) or ' '
+    align = m.group(2) or '<'
+    width = int(m.group(3) or 0)
+    v = lift(val)
+    L = v.concrete_len()
+    if L is None:
+        raise Unsupported('padding a string of symbolic length')
+    pad = max(0, width - L)
+    if align == '<':
+        return simplify(SStr([v, fill * pad]))
+    if align == '>':
+        return simplify(SStr([fill * pad, v]))
+    return simplify(SStr([fill * (pad // 2), v, fill * (pad - pad // 2)]))
+
+
 def format_(fmt, args, kwargs, interp):
     """str.format with structured / symbolic-integer arguments"""
     out = []
@@ -875,19 +1000,27 @@ def format_(fmt, args, kwargs, interp):
         else:
             raise Unsupported('format field %r' % field)
         spec = spec or ''
+        if type(val).__name__ == 'PiV' or \
+                (isinstance(val, Sym) and str(val.t) == 'pi!const'):
+            import math
+            val = Fraction(math.pi)
         if '{' in spec:
             spec = spec.format(*[a for a in args if isinstance(a, (str, int))],
                                **{k: v for k, v in kwargs.items()
                                   if isinstance(v, (str, int))})
         if isinstance(val, (str, SStr)):
             if spec:
-                raise Unsupported('string format spec %r' % spec)
-            out.append(val)
+                out.append(pad_text(val, spec))
+            else:
+                out.append(val)
         elif isinstance(val, Sym) and val.kind == 'int':
             out.append(int_text(val, spec, interp))
         elif isinstance(val, Sym) and val.kind == 'real' and \
                 spec == ' 2.8E':
             out.append(sci_text(val, interp))
+        elif isinstance(val, Sym) and val.kind == 'real' and spec and \
+                (spec[0] in ' +' or spec[-1] in 'Ee'):
+            out.append(fmt_text(val, spec, interp))
         elif isinstance(val, Sym) and val.kind == 'real' and spec:
             out.append(float_text(val, spec, interp))
         elif isinstance(val, bool) or val is None:
